@@ -1,5 +1,470 @@
-//! C07 — not built yet.
-#![allow(unused)]
+//! C07 — quadrature (`integrate::{trapz, romberg, quad5, trapezoid}`): case generation for the Coq
+//! correspondence and the failure-search oracle.
+//!
+//! Correspondence integrands are polynomials given by their coefficient list and evaluated by Horner's
+//! rule (the same recursion as `Model/Quad.v::horner`), so the comparison is bitwise; the few integrands
+//! that call libm (`catalogue`) go through the recorded table.
+use crate::libm;
 use crate::util::*;
-pub fn gen(_tier: &str, _seed: u64, _outdir: &str) { eprintln!("C07: gen not implemented"); std::process::exit(3); }
-pub fn oracle(_tier: &str, _seed: u64) -> (u64, Vec<Finding>) { eprintln!("C07: oracle not implemented"); std::process::exit(3); }
+use compute::integrate::{quad5, romberg, trapezoid, trapz};
+
+/// `c0 + c1 x + c2 x^2 + ...` by Horner: ((0*x + c_d)*x + c_{d-1})*x + ... + c0
+fn horner(cs: &[f64], x: f64) -> f64 { cs.iter().rev().fold(0.0, |acc, &c| acc * x + c) }
+
+/// integrands of the correspondence that are not polynomials (ids shared with `Model/Quad.v::catalogue`)
+fn catalogue(id: u64, x: f64) -> f64 {
+    match id {
+        0 => x.exp(),
+        1 => x.sin() * (2.0 * x).cos(),
+        2 => 1.0 / (1.0 + x * x),
+        3 => x * (1.0 + 2.0 * x).sqrt(),
+        4 => x.ln() / x,
+        _ => (-x).exp() * x.cos(),
+    }
+}
+const NCAT: u64 = 6;
+
+fn specials() -> [f64; 9] { [0.0, -0.0, f64::INFINITY, f64::NEG_INFINITY, f64::NAN, 5e-324, -2.5e-310, f64::MAX, 1.0] }
+
+fn endpoint(r: &mut Rng) -> f64 {
+    match r.below(6) { 0 => r.small_int(10), 1 => r.small_int(1000), 2 => r.uniform(-1.0, 1.0), _ => r.uniform(-1e3, 1e3) }
+}
+fn coeffs(r: &mut Rng, deg: usize) -> Vec<f64> {
+    let int = r.coin(0.4);
+    (0..=deg).map(|_| if int { r.small_int(9) } else { r.uniform(-3.0, 3.0) }).collect()
+}
+fn opt_list(x: &Option<Vec<f64>>) -> Tm { match x { Some(v) => app("Some", vec![fl(v)]), None => Tm::Raw("None".into()) } }
+fn opt_f(x: &Option<f64>) -> Tm { match x { Some(v) => app("Some", vec![Tm::F(*v)]), None => Tm::Raw("None".into()) } }
+
+pub fn gen(tier: &str, seed: u64, outdir: &str) {
+    let mut r = Rng::new(seed ^ 0x07);
+    let mut cs = Cases::new("C07");
+    let thorough = tier == "thorough";
+    let mul = if thorough { 60 } else { 1 };
+
+    // ---- trapz: every n in 0..=40, then random n up to 4096; polynomial integrands of degree 0..6
+    let mut push_trapz = |cs: &mut Cases, p: &[f64], a: f64, b: f64, n: usize, tag: &str| {
+        let res = catch(|| trapz(|x| horner(p, x), a, b, n)).map(|v| vec![v]);
+        cs.push(app("CTrapz", vec![fl(p), Tm::F(a), Tm::F(b), Tm::Nat(n as u64), outcome_list(&res)]), tag, n >= 2 && p.len() >= 2);
+    };
+    for n in 0..=40usize {
+        for _ in 0..(2 * mul) {
+            let d = r.below(7) as usize; let p = coeffs(&mut r, d);
+            let (a, b) = (endpoint(&mut r), endpoint(&mut r));
+            push_trapz(&mut cs, &p, a, b, n, "trapz/n<=40");
+        }
+    }
+    for _ in 0..(40 * mul) {
+        let n = match r.below(4) { 0 => 1usize << r.below(13), 1 => 4096, _ => 1 + r.below(4096) as usize };
+        let n = if thorough { n } else { n.min(1 + r.below(600) as usize).max(1) };
+        let d = r.below(7) as usize; let p = coeffs(&mut r, d);
+        let (a, b) = (endpoint(&mut r), endpoint(&mut r));
+        push_trapz(&mut cs, &p, a, b, n, "trapz/large-n");
+    }
+    for _ in 0..(30 * mul) {
+        // a = b, a > b by construction, special values in the limits or the coefficients
+        let d = r.below(4) as usize; let mut p = coeffs(&mut r, d);
+        let a = endpoint(&mut r);
+        let n = r.below(9) as usize;
+        push_trapz(&mut cs, &p, a, a, n, "trapz/a=b");
+        let b = a - r.uniform(0.0, 50.0);
+        push_trapz(&mut cs, &p, a, b, n, "trapz/a>b");
+        let s = *r.pick(&specials());
+        match r.below(3) { 0 => push_trapz(&mut cs, &p, s, a, n, "trapz/special"), 1 => push_trapz(&mut cs, &p, a, s, n, "trapz/special"),
+                           _ => { let i = r.below(p.len() as u64) as usize; p[i] = s; push_trapz(&mut cs, &p, a, b, n, "trapz/special") } }
+    }
+
+    // ---- romberg: every level budget 0..=10 (quick) / 0..=13 (thorough), eps in {0, random up to 1e-3, special}; 14..20 sampled
+    let mut push_romberg = |cs: &mut Cases, p: &[f64], a: f64, b: f64, eps: f64, nmax: usize, tag: &str| {
+        let res = catch(|| romberg(|x| horner(p, x), a, b, eps, nmax)).map(|v| vec![v]);
+        cs.push(app("CRomberg", vec![fl(p), Tm::F(a), Tm::F(b), Tm::F(eps), Tm::Nat(nmax as u64), outcome_list(&res)]), tag, nmax >= 2 && p.len() >= 2);
+    };
+    let kmax = if thorough { 13 } else { 10 };
+    for nmax in 0..=kmax {
+        let reps = if nmax <= 8 { 6 * mul } else { 2 * mul.min(4) };
+        for i in 0..reps {
+            let d = r.below(10) as usize; let p = coeffs(&mut r, d);
+            let (a, b) = (endpoint(&mut r), endpoint(&mut r));
+            let eps = match i % 3 { 0 => 0.0, 1 => 10f64.powi(-(3 + r.below(10) as i32)), _ => r.uniform(0.0, 1e-3) };
+            push_romberg(&mut cs, &p, a, b, eps, nmax, &format!("romberg/nmax={}", nmax));
+        }
+    }
+    for nmax in (if thorough { vec![14usize, 15, 16, 17, 18, 19, 20] } else { vec![16usize] }) {
+        let d = 1 + r.below(5) as usize; let p = coeffs(&mut r, d);
+        let (a, b) = (endpoint(&mut r), endpoint(&mut r));
+        push_romberg(&mut cs, &p, a, b, 1e-9, nmax, "romberg/nmax>13 (sampled)");
+    }
+    for _ in 0..(20 * mul) {
+        // early-stop branches: loose tolerances, zero integrals (odd integrand on a symmetric interval), a = b, special eps
+        let nmax = 2 + r.below(7) as usize;
+        let d = r.below(6) as usize; let mut p = coeffs(&mut r, d);
+        let a = endpoint(&mut r);
+        match r.below(5) {
+            0 => push_romberg(&mut cs, &p, a, a, 1e-6, nmax, "romberg/a=b"),
+            1 => { for i in (0..p.len()).step_by(2) { p[i] = 0.0; } push_romberg(&mut cs, &p, -a, a, 1e-6, nmax, "romberg/odd-integrand") }
+            2 => { let e = *r.pick(&[f64::NAN, f64::INFINITY, -1.0, 0.0, -0.0, 1.0, 1e300]); let b = endpoint(&mut r); push_romberg(&mut cs, &p, a, b, e, nmax, "romberg/special-eps") }
+            3 => { let s = *r.pick(&specials()); let b = endpoint(&mut r); push_romberg(&mut cs, &p, s, b, 1e-8, nmax, "romberg/special-limit") }
+            _ => { let b = endpoint(&mut r); push_romberg(&mut cs, &p, a, b, 0.5, nmax, "romberg/loose-eps") }
+        }
+    }
+
+    for _ in 0..(8 * mul.min(6)) {
+        // successive estimates of opposite sign: p = q + c (t^2-1)^2 t^2 on [-1,1], deg q <= 3, c = -10 * int(q):
+        // the 3-node estimate is int(q), the 5-node estimate is -int(q) (up to rounding); a sign-blind test would stop there
+        let q = coeffs(&mut r, 3);
+        let i = 2.0 * q[0] + 2.0 / 3.0 * q[2];
+        let c = -10.0 * i;
+        let p = vec![q[0], q[1], q[2] + c, q[3], -2.0 * c, 0.0, c];
+        let nmax = 3 + r.below(6) as usize;
+        let eps = *r.pick(&[1e-8, 1e-6, 1e-3]);
+        push_romberg(&mut cs, &p, -1.0, 1.0, eps, nmax, "romberg/opposite-sign-estimates");
+    }
+
+    // ---- quad5: monomials 0..=21 on several intervals, random polynomials, special values
+    for d in 0..=21usize {
+        let mut p = vec![0.0; d + 1]; p[d] = 1.0;
+        for (a, b) in [(-1.0, 1.0), (0.0, 1.0), (endpoint(&mut r), endpoint(&mut r))] {
+            let res = catch(|| quad5(|x| horner(&p, x), a, b)).map(|v| vec![v]);
+            cs.push(app("CQuad5", vec![fl(&p), Tm::F(a), Tm::F(b), outcome_list(&res)]), "quad5/monomial", d >= 1);
+        }
+    }
+    for i in 0..(60 * mul) {
+        let d = r.below(20) as usize; let mut p = coeffs(&mut r, d);
+        let (mut a, mut b) = (endpoint(&mut r), endpoint(&mut r));
+        let tag = match i % 10 { 0 => { b = a; "quad5/a=b" } 1 => { a = *r.pick(&specials()); "quad5/special" }
+                                 2 => { let k = r.below(p.len() as u64) as usize; p[k] = *r.pick(&specials()); "quad5/special" } _ => "quad5/random" };
+        let res = catch(|| quad5(|x| horner(&p, x), a, b)).map(|v| vec![v]);
+        cs.push(app("CQuad5", vec![fl(&p), Tm::F(a), Tm::F(b), outcome_list(&res)]), tag, d >= 1);
+    }
+
+    // ---- integrands that call libm: recorded table
+    for i in 0..(36 * mul as u64) {
+        let id = i % NCAT;
+        let (a, b) = match id { 4 => (r.uniform(0.5, 3.0), r.uniform(3.0, 9.0)), 3 => (r.uniform(0.0, 2.0), r.uniform(2.0, 4.0)), _ => (r.uniform(-3.0, 3.0), r.uniform(-3.0, 3.0)) };
+        match (i / NCAT) % 3 {
+            0 => { let n = 1 + r.below(40) as usize;
+                   libm::start(); let res = catch(|| trapz(|x| catalogue(id, x), a, b, n)).map(|v| vec![v]); let t = libm::stop();
+                   cs.push(app("CTrapzF", vec![libm_table(&t), Tm::Nat(id), Tm::F(a), Tm::F(b), Tm::Nat(n as u64), outcome_list(&res)]), "libm/trapz", n >= 2); }
+            1 => { let nmax = 2 + r.below(5) as usize; let eps = *r.pick(&[0.0, 1e-8, 1e-4]);
+                   libm::start(); let res = catch(|| romberg(|x| catalogue(id, x), a, b, eps, nmax)).map(|v| vec![v]); let t = libm::stop();
+                   cs.push(app("CRombergF", vec![libm_table(&t), Tm::Nat(id), Tm::F(a), Tm::F(b), Tm::F(eps), Tm::Nat(nmax as u64), outcome_list(&res)]), "libm/romberg", true); }
+            _ => { libm::start(); let res = catch(|| quad5(|x| catalogue(id, x), a, b)).map(|v| vec![v]); let t = libm::stop();
+                   cs.push(app("CQuad5F", vec![libm_table(&t), Tm::Nat(id), Tm::F(a), Tm::F(b), outcome_list(&res)]), "libm/quad5", true); }
+        }
+    }
+
+    // ---- sampled trapezoid: the three calling forms, every length 0..=24, longer arrays, malformed calls
+    let mut push_samples = |cs: &mut Cases, y: &[f64], x: &Option<Vec<f64>>, dx: &Option<f64>, tag: &str| {
+        let res = catch(|| trapezoid(y, x.as_deref(), *dx)).map(|v| vec![v]);
+        let nt = res.is_err() || y.len() >= 3;
+        cs.push(app("CSamples", vec![fl(y), opt_list(x), opt_f(dx), outcome_list(&res)]), tag, nt);
+    };
+    let maxlen = if thorough { 40 } else { 24 };
+    for len in 0..=maxlen {
+        for _ in 0..mul.min(3) {
+            let y: Vec<f64> = (0..len).map(|_| r.uniform(-5.0, 5.0)).collect();
+            let mut x: Vec<f64> = (0..len).map(|_| r.uniform(-10.0, 10.0)).collect();
+            if r.coin(0.7) { x.sort_by(|p, q| p.partial_cmp(q).unwrap()); }
+            push_samples(&mut cs, &y, &Some(x.clone()), &None, "samples/x");
+            push_samples(&mut cs, &y, &None, &Some(r.uniform(-2.0, 2.0)), "samples/dx");
+            push_samples(&mut cs, &y, &None, &None, "samples/unit-spacing");
+        }
+        // long arrays, spread over the shards (one every few lengths) so that no shard grows past ~1.5 MB
+        if len % 4 == 0 {
+            let ll = if thorough { 500 + r.below(9500) as usize } else { 50 + r.below(1500) as usize };
+            let y: Vec<f64> = (0..ll).map(|_| r.uniform(-5.0, 5.0)).collect();
+            let mut x: Vec<f64> = (0..ll).map(|_| r.uniform(-100.0, 100.0)).collect();
+            x.sort_by(|p, q| p.partial_cmp(q).unwrap());
+            match r.below(3) { 0 => push_samples(&mut cs, &y, &Some(x), &None, "samples/long"), 1 => push_samples(&mut cs, &y, &None, &Some(r.uniform(0.0, 1.0)), "samples/long"),
+                               _ => push_samples(&mut cs, &y, &None, &None, "samples/long") }
+        }
+    }
+    for _ in 0..(40 * mul) {
+        // malformed stream: lengths differ, both x and dx, empty arrays, special values
+        let ly = r.below(6) as usize; let lx = r.below(6) as usize;
+        let mut y: Vec<f64> = (0..ly).map(|_| r.small_int(9)).collect();
+        let x: Vec<f64> = (0..lx).map(|_| r.small_int(9)).collect();
+        let dx = if r.coin(0.5) { Some(*r.pick(&[0.5, 2.0, f64::NAN, 0.0, -0.0, f64::INFINITY])) } else { None };
+        let xo = if r.coin(0.7) { Some(x) } else { None };
+        if ly > 0 && r.coin(0.3) { let k = r.below(ly as u64) as usize; y[k] = *r.pick(&specials()); }
+        push_samples(&mut cs, &y, &xo, &dx, "samples/malformed-stream");
+    }
+
+    cs.write(outdir, if thorough { 60 } else { 150 },
+             "trapz: every n in 0..=40 and random n up to 4096 (600 quick), polynomial integrands of degree 0..6 (Horner), limits in +-1e3 incl. a=b, a>b, special values; romberg: every level budget 0..=10 (13 thorough), 14..20 sampled, eps 0 / 1e-3..1e-12 / uniform / special, degree 0..9, early-stop stream incl. successive estimates of opposite sign; quad5: all monomials 0..21 on [-1,1], [0,1] and a random interval, random polynomials to degree 19; six libm integrands through the recorded table; sampled trapezoid: three calling forms at every length 0..=24 (40 thorough), long arrays, malformed stream (length mismatch, x and dx both given, empty). Non-trivial = n >= 2 panels / >= 2 levels with degree >= 1, libm integrands, >= 3 samples or a panic; distinct by hash of the case term");
+}
+
+// ---------------------------------------------------------------------------------------------------------
+// failure-search oracle: the property's statement against the implementation only
+
+/// double-double arithmetic (Dekker/Knuth), enough for an exact-to-1e-30 polynomial antiderivative
+#[derive(Clone, Copy)]
+struct DD(f64, f64);
+fn two_sum(a: f64, b: f64) -> DD { let s = a + b; let bb = s - a; DD(s, (a - (s - bb)) + (b - bb)) }
+fn split(a: f64) -> (f64, f64) { let t = 134217729.0 * a; let hi = t - (t - a); (hi, a - hi) }
+fn two_prod(a: f64, b: f64) -> DD {
+    let p = a * b; let (ah, al) = split(a); let (bh, bl) = split(b);
+    DD(p, ((ah * bh - p) + ah * bl + al * bh) + al * bl)
+}
+impl DD {
+    fn from(x: f64) -> DD { DD(x, 0.0) }
+    fn add(self, o: DD) -> DD { let s = two_sum(self.0, o.0); let t = s.1 + self.1 + o.1; let r = two_sum(s.0, t); DD(r.0, r.1) }
+    fn neg(self) -> DD { DD(-self.0, -self.1) }
+    fn mul(self, o: DD) -> DD { let p = two_prod(self.0, o.0); let t = p.1 + (self.0 * o.1 + self.1 * o.0); let r = two_sum(p.0, t); DD(r.0, r.1) }
+    fn div_f(self, d: f64) -> DD {
+        let q1 = self.0 / d; let p = two_prod(q1, d);
+        let rem = self.add(p.neg()); let q2 = (rem.0 + rem.1) / d; let r = two_sum(q1, q2); DD(r.0, r.1)
+    }
+    fn val(self) -> f64 { self.0 + self.1 }
+}
+/// exact integral of the polynomial with coefficients `p` over [a, b] (double-double Horner on the antiderivative)
+fn poly_int(p: &[f64], a: f64, b: f64) -> f64 {
+    let anti = |x: f64| -> DD {
+        let xx = DD::from(x); let mut acc = DD::from(0.0);
+        for (j, &c) in p.iter().enumerate().rev() { acc = acc.mul(xx).add(DD::from(c).div_f((j + 1) as f64)); }
+        acc.mul(xx)
+    };
+    anti(b).add(anti(a).neg()).val()
+}
+/// |b-a| * sum |c_j| max(|a|,|b|)^j : the size of the terms the rule adds up
+fn poly_scale(p: &[f64], a: f64, b: f64) -> f64 {
+    let m = a.abs().max(b.abs());
+    (b - a).abs() * p.iter().enumerate().map(|(j, c)| c.abs() * m.powi(j as i32)).sum::<f64>()
+}
+
+/// smooth integrands with closed-form antiderivative F and a bound on max |f''| over [lo, hi] (domain fixed per entry)
+struct Smooth { name: &'static str, f: fn(f64) -> f64, anti: fn(f64) -> f64, lo: f64, hi: f64, d2max: fn(f64, f64) -> f64 }
+fn smooth_catalogue() -> Vec<Smooth> {
+    fn absmax(a: f64, b: f64) -> f64 { a.abs().max(b.abs()) }
+    vec![
+        Smooth { name: "exp(x)", f: |x| x.exp(), anti: |x| x.exp(), lo: -3.0, hi: 3.0, d2max: |a, b| a.max(b).exp() },
+        Smooth { name: "sin(x)", f: |x| x.sin(), anti: |x| -x.cos(), lo: -6.0, hi: 6.0, d2max: |_, _| 1.0 },
+        Smooth { name: "cos(3x)", f: |x| (3.0 * x).cos(), anti: |x| (3.0 * x).sin() / 3.0, lo: -4.0, hi: 4.0, d2max: |_, _| 9.0 },
+        Smooth { name: "1/(1+x^2)", f: |x| 1.0 / (1.0 + x * x), anti: |x| x.atan(), lo: -5.0, hi: 5.0, d2max: |_, _| 2.0 },
+        Smooth { name: "1/x", f: |x| 1.0 / x, anti: |x| x.ln(), lo: 0.5, hi: 9.0, d2max: |a, b| 2.0 / a.min(b).powi(3) },
+        Smooth { name: "ln(x)", f: |x| x.ln(), anti: |x| x * x.ln() - x, lo: 0.5, hi: 9.0, d2max: |a, b| 1.0 / a.min(b).powi(2) },
+        Smooth { name: "ln(x)/x", f: |x| x.ln() / x, anti: |x| 0.5 * x.ln() * x.ln(), lo: 1.0, hi: 8.0, d2max: |a, b| 3.0 / a.min(b).powi(3) },
+        Smooth { name: "x*sqrt(1+2x)", f: |x| x * (1.0 + 2.0 * x).sqrt(), anti: |x| { let u = 1.0 + 2.0 * x; u.powf(2.5) / 10.0 - u.powf(1.5) / 6.0 }, lo: 0.0, hi: 4.0,
+                 d2max: |_, _| 2.0 },
+        Smooth { name: "sin^2 cos^2", f: |x| x.sin().powi(2) * x.cos().powi(2), anti: |x| (4.0 * x - (4.0 * x).sin()) / 32.0, lo: -3.0, hi: 3.0, d2max: |_, _| 2.0 },
+        Smooth { name: "sin^3 cos", f: |x| x.sin().powi(3) * x.cos(), anti: |x| x.sin().powi(4) / 4.0, lo: -3.0, hi: 3.0, d2max: |_, _| 5.0 },
+        Smooth { name: "1/(3x-7)^2", f: |x| 1.0 / (3.0 * x - 7.0).powi(2), anti: |x| -1.0 / (3.0 * (3.0 * x - 7.0)), lo: 3.0, hi: 6.0, d2max: |a, b| 54.0 / (3.0 * a.min(b) - 7.0).powi(4) },
+        Smooth { name: "exp(-x^2/2)*x", f: |x| x * (-x * x / 2.0).exp(), anti: |x| -(-x * x / 2.0).exp(), lo: -4.0, hi: 4.0, d2max: |_, _| 3.0 },
+        Smooth { name: "sinh(x)", f: |x| x.sinh(), anti: |x| x.cosh(), lo: -3.0, hi: 3.0, d2max: |a, b| absmax(a, b).sinh() },
+        Smooth { name: "cosh(x)", f: |x| x.cosh(), anti: |x| x.sinh(), lo: -3.0, hi: 3.0, d2max: |a, b| absmax(a, b).cosh() },
+        Smooth { name: "tanh(x)", f: |x| x.tanh(), anti: |x| x.cosh().ln(), lo: -3.0, hi: 3.0, d2max: |_, _| 0.8 },
+        Smooth { name: "sqrt(x)", f: |x| x.sqrt(), anti: |x| 2.0 / 3.0 * x.powf(1.5), lo: 0.5, hi: 9.0, d2max: |a, b| 0.25 / a.min(b).powf(1.5) },
+        Smooth { name: "x*exp(x)", f: |x| x * x.exp(), anti: |x| (x - 1.0) * x.exp(), lo: -2.0, hi: 2.0, d2max: |a, b| (absmax(a, b) + 2.0) * a.max(b).exp() },
+        Smooth { name: "x^2*sin(x)", f: |x| x * x * x.sin(), anti: |x| (2.0 - x * x) * x.cos() + 2.0 * x * x.sin(), lo: -3.0, hi: 3.0, d2max: |a, b| { let m = absmax(a, b); 2.0 + 4.0 * m + m * m } },
+        Smooth { name: "1/(1+exp(-x))", f: |x| 1.0 / (1.0 + (-x).exp()), anti: |x| (1.0 + x.exp()).ln(), lo: -5.0, hi: 5.0, d2max: |_, _| 0.1 },
+        Smooth { name: "atan(x)", f: |x| x.atan(), anti: |x| x * x.atan() - 0.5 * (1.0 + x * x).ln(), lo: -5.0, hi: 5.0, d2max: |_, _| 0.65 },
+    ]
+}
+
+pub fn oracle(tier: &str, seed: u64) -> (u64, Vec<Finding>) {
+    let thorough = tier == "thorough";
+    let mut r = Rng::new(seed ^ 0xC07);
+    let mut tried = 0u64;
+    // keep, per class, the most severe failing input
+    let mut worst: std::collections::BTreeMap<String, (f64, String, String)> = Default::default();
+    let mut fail = |class: &str, sev: f64, what: String, input: String| {
+        let e = worst.entry(class.to_string()).or_insert((-1.0, String::new(), String::new()));
+        if sev > e.0 { *e = (sev, what, input); }
+    };
+    let eps = f64::EPSILON;
+    let iters = if thorough { 25000 } else { 700 };
+
+    // ---- 1. trapz: exact on affine integrands for every n >= 1 (up to rounding: (n + 8) eps on the terms added up)
+    for it in 0..iters {
+        let (c, d) = if it % 3 == 0 { (r.small_int(9), r.small_int(9)) } else { (r.uniform(-3.0, 3.0), r.uniform(-3.0, 3.0)) };
+        let (a, b) = (endpoint(&mut r), if it % 17 == 0 { f64::NAN } else { endpoint(&mut r) });
+        let b = if b.is_nan() { a } else { b };
+        let n = match it % 5 { 0 => 1, 1 => 1 + r.below(8) as usize, 2 => 1usize << r.below(13), _ => 1 + r.below(4096) as usize };
+        let p = [c, d];
+        let input = format!("trapz(f(x) = {:e} + {:e}*x, a = {:e}, b = {:e}, n = {})", c, d, a, b, n);
+        crumb(&input);
+        let got = catch(|| trapz(|x| horner(&p, x), a, b, n));
+        tried += 1;
+        let want = poly_int(&p, a, b);
+        let tol = 4.0 * (n as f64 + 8.0) * eps * poly_scale(&p, a, b);
+        match got {
+            Err(e) => fail("trapz:panics", 1.0, format!("panicked: {}", e), input),
+            Ok(g) => {
+                if !((g - want).abs() <= tol) {
+                    fail("trapz:affine-not-exact", (g - want).abs() / (tol + f64::MIN_POSITIVE), format!("returned {:e}, the integral of the affine integrand is {:e} (difference {:e}, rounding allowance {:e})", g, want, g - want, tol), input.clone());
+                }
+                if a == b && g != 0.0 { fail("trapz:a=b-nonzero", 1.0, format!("returned {:e} for an empty interval", g), input); }
+            }
+        }
+    }
+    // exact arithmetic instance: integer data, n a power of two => every operation is exact, result must be equal
+    for _ in 0..iters / 2 {
+        let (c, d) = (r.small_int(9), r.small_int(9)); let a = r.small_int(64); let w = r.small_int(64); let n = 1usize << r.below(7);
+        let b = a + w; let p = [c, d];
+        let input = format!("trapz(f(x) = {:e} + {:e}*x, a = {:e}, b = {:e}, n = {})", c, d, a, b, n);
+        crumb(&input);
+        let got = catch(|| trapz(|x| horner(&p, x), a, b, n)); tried += 1;
+        let want = c * w + d * (b * b - a * a) / 2.0;
+        if let Ok(g) = got { if g != want {
+            fail("trapz:affine-not-exact", f64::INFINITY, format!("returned {:e}; every operation is exact on this input and the integral is {:e}", g, want), input); } }
+    }
+
+    // ---- 2. linearity, sign change under a <-> b, a = b => 0   (all three rules; rounding allowances on the size of the terms)
+    for it in 0..iters {
+        let df = r.below(6) as usize; let dg = r.below(6) as usize;
+        let (pf, pg) = (coeffs(&mut r, df), coeffs(&mut r, dg));
+        let (al, be) = (r.small_int(4), r.uniform(-2.0, 2.0));
+        let (a, b) = (endpoint(&mut r), endpoint(&mut r));
+        let n = 1 + r.below(if it % 4 == 0 { 4096 } else { 64 }) as usize;
+        let k = 2 + r.below(7) as usize;
+        let f = |x: f64| horner(&pf, x); let g = |x: f64| horner(&pg, x);
+        let h = |x: f64| al * horner(&pf, x) + be * horner(&pg, x);
+        let sc = al.abs() * poly_scale(&pf, a, b) + be.abs() * poly_scale(&pg, a, b);
+        let rules: [(&str, Box<dyn Fn(&dyn Fn(f64) -> f64, f64, f64) -> f64>, f64); 3] = [
+            ("trapz", Box::new(move |q: &dyn Fn(f64) -> f64, a: f64, b: f64| trapz(|x| q(x), a, b, n)), 8.0 * (n as f64 + 8.0) * eps),
+            ("romberg", Box::new(move |q: &dyn Fn(f64) -> f64, a: f64, b: f64| romberg(|x| q(x), a, b, 0.0, k)), 64.0 * ((1u64 << k) as f64 + 8.0) * eps),
+            ("quad5", Box::new(|q: &dyn Fn(f64) -> f64, a: f64, b: f64| quad5(|x| q(x), a, b)), 256.0 * eps)];
+        for (name, rule, rel) in rules.iter() {
+            let input = format!("{} (n = {}, levels = {}, eps = 0) f = {} g = {} alpha = {:e} beta = {:e} a = {:e} b = {:e}", name, n, k, json_floats(&pf), json_floats(&pg), al, be, a, b);
+            tried += 3;
+            crumb(&input);
+            let res = catch(|| (rule(&f, a, b), rule(&g, a, b), rule(&h, a, b), rule(&h, b, a), rule(&h, a, a)));
+            match res {
+                Err(e) => fail(&format!("{}:panics", name), 1.0, format!("panicked: {}", e), input),
+                Ok((rf, rg, rh, rhs, rz)) => {
+                    let tol = rel * sc + f64::MIN_POSITIVE;
+                    if !((rh - (al * rf + be * rg)).abs() <= tol) { fail(&format!("{}:not-linear", name), (rh - (al * rf + be * rg)).abs() / tol, format!("rule(alpha f + beta g) = {:e} but alpha rule(f) + beta rule(g) = {:e}", rh, al * rf + be * rg), input.clone()); }
+                    if !((rh + rhs).abs() <= tol) { fail(&format!("{}:no-sign-change", name), (rh + rhs).abs() / tol, format!("rule over [a,b] = {:e}, over [b,a] = {:e}: sum should vanish", rh, rhs), input.clone()); }
+                    if rz != 0.0 { fail(&format!("{}:a=b-nonzero", name), 1.0, format!("rule over [a,a] = {:e}", rz), input.clone()); }
+                }
+            }
+        }
+    }
+
+    // ---- 3. Romberg with k levels is exact up to degree 2k-1; Gauss-Legendre up to degree 9 at least (checked to 19)
+    for it in 0..iters {
+        let k = 1 + r.below(if thorough { 12 } else { 10 }) as usize;
+        let d = r.below((2 * k).min(20) as u64) as usize;
+        let mono = it % 3 == 0;
+        let p = if mono { let mut p = vec![0.0; d + 1]; p[d] = 1.0; p } else { coeffs(&mut r, d) };
+        let (a, b) = if it % 4 == 0 { (r.small_int(3), r.small_int(3)) } else { (endpoint(&mut r), endpoint(&mut r)) };
+        let want = poly_int(&p, a, b); let sc = poly_scale(&p, a, b);
+        tried += 1;
+        let input = format!("romberg(polynomial coefficients {} (degree {}), a = {:e}, b = {:e}, eps = 0, nmax = {})", json_floats(&p), d, a, b, k);
+        crumb(&input);
+        match catch(|| romberg(|x| horner(&p, x), a, b, 0.0, k)) {
+            Err(e) => fail("romberg:panics", 1.0, format!("panicked: {}", e), input),
+            Ok(g) => { let tol = 1e-10 * sc + f64::MIN_POSITIVE; if !((g - want).abs() <= tol) { fail("romberg:polynomial-not-exact", (g - want).abs() / tol, format!("returned {:e}, exact integral {:e} (difference {:e}, allowance {:e})", g, want, g - want, tol), input); } }
+        }
+        let d = r.below(20) as usize;
+        let p = if mono { let mut p = vec![0.0; d + 1]; p[d] = 1.0; p } else { coeffs(&mut r, d) };
+        let want = poly_int(&p, a, b); let sc = poly_scale(&p, a, b);
+        tried += 1;
+        let input = format!("quad5(polynomial coefficients {} (degree {}), a = {:e}, b = {:e})", json_floats(&p), d, a, b);
+        crumb(&input);
+        match catch(|| quad5(|x| horner(&p, x), a, b)) {
+            Err(e) => fail("quad5:panics", 1.0, format!("panicked: {}", e), input),
+            Ok(g) => { let tol = 1e-12 * sc + f64::MIN_POSITIVE; if !((g - want).abs() <= tol) { fail(if d <= 9 { "quad5:polynomial-not-exact" } else { "quad5:polynomial-not-exact-deg10..19" }, (g - want).abs() / tol, format!("returned {:e}, exact integral {:e} (difference {:e}, allowance {:e})", g, want, g - want, tol), input); } }
+        }
+    }
+
+    // ---- 4. smooth integrands: trapezoid error bound (b-a) h^2/12 max|f''|, Romberg error of the order of eps
+    let cat = smooth_catalogue();
+    for it in 0..(if thorough { 8000 } else { 400 }) {
+        let s = &cat[it % cat.len()];
+        let (mut a, mut b) = (r.uniform(s.lo, s.hi), r.uniform(s.lo, s.hi));
+        if it % 7 == 0 { std::mem::swap(&mut a, &mut b); }
+        let want = (s.anti)(b) - (s.anti)(a);
+        let fmax = (0..=64).map(|i| (s.f)(a + (b - a) * i as f64 / 64.0).abs()).fold(0.0, f64::max);
+        let amax = (s.anti)(a).abs().max((s.anti)(b).abs());
+        let n = 1 + r.below(4096) as usize;
+        let h = (b - a).abs() / n as f64;
+        let bound = (b - a).abs() * h * h / 12.0 * (s.d2max)(a, b);
+        let round = 8.0 * (n as f64 + 8.0) * eps * (b - a).abs() * fmax + 64.0 * eps * amax;
+        tried += 1;
+        let input = format!("trapz(f = {}, a = {:e}, b = {:e}, n = {})", s.name, a, b, n);
+        crumb(&input);
+        match catch(|| trapz(s.f, a, b, n)) {
+            Err(e) => fail("trapz:panics", 1.0, format!("panicked: {}", e), input),
+            Ok(g) => if !((g - want).abs() <= bound + round) { fail("trapz:error-bound-exceeded", (g - want).abs() / (bound + round), format!("returned {:e}, integral {:e}: error {:e} exceeds (b-a)h^2/12 max|f''| = {:e} (+ rounding {:e})", g, want, (g - want).abs(), bound, round), input) },
+        }
+        let tol_req = *r.pick(&[1e-3, 1e-5, 1e-8, 1e-10]);
+        let nmax = 12 + r.below(9) as usize;
+        tried += 1;
+        let input = format!("romberg(f = {}, a = {:e}, b = {:e}, eps = {:e}, nmax = {})", s.name, a, b, tol_req, nmax);
+        crumb(&input);
+        match catch(|| romberg(s.f, a, b, tol_req, nmax)) {
+            Err(e) => fail("romberg:panics", 1.0, format!("panicked: {}", e), input),
+            Ok(g) => { let allow = 100.0 * tol_req * want.abs().max(1.0) + 1e-11 * ((b - a).abs() * fmax + amax);
+                       if !((g - want).abs() <= allow) {
+                           // did the very first convergence test (levels 1 and 2: 3 against 5 nodes) end the run?  nmax = 3 returns r[2][2] whatever happens
+                           let first = catch(|| romberg(s.f, a, b, tol_req, 3)).map(|r3| r3 == g).unwrap_or(false);
+                           let class = if first { "romberg:first-convergence-test-aliased" } else { "romberg:error-far-above-tolerance" };
+                           fail(class, (g - want).abs() / allow, format!("returned {:e}, integral {:e}: error {:e} against requested tolerance {:e}{}", g, want, (g - want).abs(), tol_req,
+                                if first { " (the 3-node and 5-node estimates agreed to the tolerance by aliasing, so the run stopped at its first test)" } else { "" }), input); } }
+        }
+    }
+
+    // ---- 5. Romberg must not stop on two successive estimates of opposite sign (they differ by |x|+|y|, not by < eps):
+    //         degree-6 polynomials built so that the 3-point (Simpson) and 5-point (Boole) estimates are x and -x
+    for _ in 0..(if thorough { 400 } else { 60 }) {
+        let (a, b) = (r.small_int(4), r.small_int(4));
+        if a == b { continue; }
+        // p(t) = q(t) + c * w(t), w(t) = (t-a)^2 (t-b)^2 ((t - (a+b)/2)^2): vanishes at the 3 Simpson nodes, not at the quarter points
+        // choose c so that Boole(p) = -Simpson(p); as Simpson(p) = Simpson(q): c = -(Simpson(q) + Boole(q)) / Boole(w)
+        let q = coeffs(&mut r, 3);
+        let m = 0.5 * (a + b);
+        let w = |t: f64| (t - a) * (t - a) * (t - b) * (t - b) * (t - m) * (t - m);
+        let simpson = |f: &dyn Fn(f64) -> f64| (b - a) / 6.0 * (f(a) + 4.0 * f(m) + f(b));
+        let boole = |f: &dyn Fn(f64) -> f64| { let hq = (b - a) / 4.0; (b - a) / 90.0 * (7.0 * f(a) + 32.0 * f(a + hq) + 12.0 * f(m) + 32.0 * f(a + 3.0 * hq) + 7.0 * f(b)) };
+        let qf = |t: f64| horner(&q, t);
+        let sq = simpson(&qf); if sq.abs() < 1e-3 { continue; }
+        let c = -(sq + boole(&qf)) / boole(&w);
+        let p = |t: f64| horner(&q, t) + c * w(t);
+        // exact integral: q by the antiderivative, w by substitution u = (t-m)/((b-a)/2): int = ((b-a)/2)^7 * int_{-1}^{1} (u^2-1)^2 u^2 du = ((b-a)/2)^7 * 16/105
+        let want = poly_int(&q, a, b) + c * ((b - a) / 2.0).powi(7) * 16.0 / 105.0;
+        tried += 1;
+        let input = format!("romberg(p(t) = q(t) + c*(t-a)^2 (t-b)^2 (t-(a+b)/2)^2, q coefficients {}, c = {:e}, a = {:e}, b = {:e}, eps = 1e-8, nmax = 12): Simpson estimate {:e}, Boole estimate {:e}", json_floats(&q), c, a, b, simpson(&p), boole(&p));
+        crumb(&input);
+        match catch(|| romberg(|t| p(t), a, b, 1e-8, 12)) {
+            Err(e) => fail("romberg:panics", 1.0, format!("panicked: {}", e), input),
+            Ok(g) => { let allow = 1e-6 * (want.abs() + sq.abs());
+                       if !((g - want).abs() <= allow) { fail("romberg:stops-on-opposite-sign-estimates", (g - want).abs() / allow, format!("returned {:e} after the estimates {:e} and {:e} (opposite signs, relative difference 2) were taken as converged; the integral of this degree-6 polynomial is {:e}, which 4 levels reproduce exactly", g, simpson(&p), boole(&p), want), input); } }
+        }
+    }
+
+    // ---- 6. sampled trapezoid = sum of the exact integrals of the chords; malformed calls are rejected
+    for it in 0..iters {
+        let len = match it % 4 { 0 => 2 + r.below(6) as usize, 1 => 2 + r.below(60) as usize, _ => 2 + r.below(if thorough { 9999 } else { 1500 }) as usize };
+        let integer = it % 3 == 0;
+        let y: Vec<f64> = (0..len).map(|_| if integer { 2.0 * r.small_int(50) } else { r.uniform(-5.0, 5.0) }).collect();
+        let mut x: Vec<f64> = (0..len).map(|_| if integer { r.small_int(500) } else { r.uniform(-100.0, 100.0) }).collect();
+        if r.coin(0.8) { x.sort_by(|p, q| p.partial_cmp(q).unwrap()); }
+        let form = it % 3;
+        let dx = if integer { r.small_int(8) } else { r.uniform(-2.0, 2.0) };
+        let width = |i: usize| match form { 0 => DD::from(x[i]).add(DD::from(-x[i - 1])), 1 => DD::from(dx), _ => DD::from(1.0) };
+        let mut acc = DD::from(0.0); let mut mag = 0.0;
+        for i in 1..len { let t = DD::from(y[i]).add(DD::from(y[i - 1])).mul(width(i)); acc = acc.add(DD(t.0 / 2.0, t.1 / 2.0)); mag += (t.0 / 2.0).abs(); }
+        let want = acc.val();
+        let short = |v: &[f64]| if v.len() <= 12 { json_floats(v) } else { format!("{} values starting {}", v.len(), json_floats(&v[..6])) };
+        let input = format!("trapezoid(y = {}, x = {}, dx = {})", short(&y), if form == 0 { short(&x) } else { "None".into() }, if form == 1 { format!("{:e}", dx) } else { "None".into() });
+        crumb(&input);
+        let got = match form { 0 => catch(|| trapezoid(&y, Some(&x), None)), 1 => catch(|| trapezoid(&y, None, Some(dx))), _ => catch(|| trapezoid(&y, None, None)) };
+        tried += 1;
+        match got {
+            Err(e) => fail("trapezoid:panics-on-valid-input", 1.0, format!("panicked: {}", e), input),
+            Ok(g) => { let tol = if integer { 0.0 } else { 2.0 * (len as f64 + 4.0) * eps * mag };
+                       if !((g - want).abs() <= tol) { fail("trapezoid:not-sum-of-chord-integrals", (g - want).abs() / (tol + f64::MIN_POSITIVE), format!("returned {:e}, the piecewise-linear interpolant integrates to {:e}", g, want), input); } }
+        }
+        if it % 10 == 0 {
+            let lx = len + 1 + r.below(3) as usize; let xb: Vec<f64> = (0..lx).map(|i| i as f64).collect();
+            tried += 2;
+            crumb(&format!("trapezoid with len(y) = {}, len(x) = {} / with both x and dx", len, lx));
+            if catch(|| trapezoid(&y, Some(&xb), None)).is_ok() { fail("trapezoid:length-mismatch-accepted", 1.0, "returned a value for x and y of different lengths".into(), format!("len(y) = {}, len(x) = {}", len, lx)); }
+            if catch(|| trapezoid(&y, Some(&x), Some(1.0))).is_ok() { fail("trapezoid:x-and-dx-accepted", 1.0, "returned a value although both x and dx were given".into(), format!("len(y) = {}", len)); }
+        }
+    }
+
+    let out = worst.into_iter().map(|(class, (_, what, input))| Finding { class, what, input }).collect();
+    (tried, out)
+}
